@@ -177,8 +177,8 @@ func checkDoc(d *document.Document, ev map[string]int) (yson.Object, *shape, *ki
 	// the rebuilt document: encoded as the server stores and sends it, and
 	// applied to an empty replica, it must reproduce the content as well.
 	if sh.sub["counter_dedup_nonempty"] && !kit.NoExclusions() {
-		// N6: the Set/Add operation of a counter carries no HLL registers
-		ev["excluded:N6-dedup-wire"] = 1
+		// F31: the Set/Add operation of a counter carries no HLL registers
+		ev["excluded:F31-dedup-wire"] = 1
 	} else {
 		third, fail := replayStored(newDoc)
 		if fail != nil {
